@@ -55,6 +55,82 @@ class S:
 #  pass, global, delete, yield is an expr statement ('yield', e)
 
 
+def mk_cmp(op, a, b):
+    """Comparisons are kept in one orientation: `a > b` is `b < a`, `a >= b` is `b <= a` -- so a comparison written the other way round is the same IR."""
+    if op == '>':
+        return ('bin', '<', b, a)
+    if op == '>=':
+        return ('bin', '<=', b, a)
+    return ('bin', op, a, b)
+
+
+_POS = {'!=': '==', 'isnot': 'is', 'notin': 'in'}
+
+
+def canon_cond(c):
+    """Negations are pushed through and/or (De Morgan, evaluation order kept) and double negations removed; comparisons under a `not` stay as they are
+    (`not (a < b)` is not `a >= b` for NaN)."""
+    if not isinstance(c, tuple):
+        return c
+    if c[0] == 'un' and c[1] == 'not':
+        x = c[2]
+        if x[0] == 'un' and x[1] == 'not':
+            return canon_cond(x[2])
+        if x[0] == 'bin' and x[1] in ('and', 'or'):
+            return ('bin', 'or' if x[1] == 'and' else 'and', canon_cond(('un', 'not', x[2])), canon_cond(('un', 'not', x[3])))
+        if x[0] == 'bin' and x[1] in _POS:
+            return ('bin', _POS[x[1]], x[2], x[3])
+        if x[0] == 'bin' and x[1] in ('==', 'is', 'in'):
+            return ('bin', {'==': '!=', 'is': 'isnot', 'in': 'notin'}[x[1]], x[2], x[3])
+        return ('un', 'not', canon_cond(x))
+    if c[0] == 'bin' and c[1] in ('and', 'or'):
+        return ('bin', c[1], canon_cond(c[2]), canon_cond(c[3]))
+    return c
+
+
+def _negative(c):
+    """(positive form, True) when c is a negated / negative test (`not x`, `a != b`, `a is not b`, `a not in b`), else (c, False)"""
+    if c[0] == 'un' and c[1] == 'not':
+        return c[2], True
+    if c[0] == 'bin' and c[1] in _POS:
+        return ('bin', _POS[c[1]], c[2], c[3]), True
+    return c, False
+
+
+def mk_if(line, cond, then, els):
+    """One shape for two-armed conditionals: the test is positive (`if not c: A else: B` is `if c: B else: A`; likewise for !=, is not, not in)."""
+    cond = canon_cond(cond)
+    if els:
+        pos, neg = _negative(cond)
+        if neg:
+            cond, then, els = pos, els, then
+    return S('if', line, cond=cond, then=then, els=els)
+
+
+def mk_cond(c, a, b):
+    c = canon_cond(c)
+    pos, neg = _negative(c)
+    if neg:
+        return ('cond', pos, b, a)
+    return ('cond', c, a, b)
+
+
+_FLIP = {'<': '>', '<=': '>=', '>': '<', '>=': '<='}
+
+
+def orient(c, left):
+    """View of an ordering comparison with a chosen left side: c is `x OP y` (any orientation); `left` is an expression or a predicate on expressions.
+    -> (op, a, b) meaning `a op b` with a matching `left`, or None when c is not an ordering comparison or neither side matches."""
+    if not (isinstance(c, tuple) and c[0] == 'bin' and c[1] in _FLIP):
+        return None
+    pred = left if callable(left) else (lambda e: e == left)
+    if pred(c[2]):
+        return (c[1], c[2], c[3])
+    if pred(c[3]):
+        return (_FLIP[c[1]], c[3], c[2])
+    return None
+
+
 def walk_stmts(stmts):
     """Yield every statement, depth first, in source order."""
     for s in stmts:
